@@ -29,7 +29,7 @@ import c01
 
 INFO = {
     "level": "proof",
-    "coq_files": ["model/LAOStar.v"],
+    "coq_files": ["model/LAOStar.v", "theory/LAOStarProper.v"],
     "trusted_base": [
         "model/LAOStar.v c03_check / c03_run_raw are evaluated on Q (NumQ); theorems are on R; tied by paramcoq transfer (theory/LAOStarTransfer.v)",
         "generated parameters (gamma, probabilities, rewards) reach the model exactly and msdm as nearest doubles; heuristic values are doubles rounded UP from the exact optimum and reach both sides as the same exact rationals",
@@ -42,17 +42,20 @@ INFO = {
 }
 
 PRE = """From Coq Require Import QArith List Bool.
-From MSDM Require Import base.Num base.NumInst model.MDP model.VI model.LAOStar.
+From MSDM Require Import base.Num base.NumInst model.MDP model.VI model.LAOStar theory.LAOStarProper.
 Import ListNotations.
 Local Open Scope Q_scope.
 Definition chk nS nA P R av ab ini g conv ex V C pol Pi iv tl Vstar Nst :=
   @c03_check Q NumQ (mk_mdp nS nA P R av ab ini g) (mk_lao conv ex V C pol Pi iv) tl Vstar Nst.
+Definition pchk nS nA P R av ab ini g conv ex V C pol Pi iv tl Vstar W :=
+  @c03_proper_check Q NumQ (mk_mdp nS nA P R av ab ini g) (mk_lao conv ex V C pol Pi iv) tl Vstar W.
 Definition runchk nS nA P R av ab ini g conv ex V C pol Pi iv Vstar r h (l : list (rawstep Q)) :=
   @c03_run_raw Q NumQ (mk_mdp nS nA P R av ab ini g) (mk_lao conv ex V C pol Pi iv) Vstar r h l.
 """
 
 CLAUSES = ["wfb", "c_initdist", "c_conv", "c_closed", "c_det", "c_avail", "c_cons", "c_fix", "c_upper",
            "c_init", "c_steps"]
+PROPER_CLAUSES = CLAUSES[:-1] + ["c_proper"]
 RUN_CLAUSES = ["wfb", "c_closed", "c_fix", "admissible", "run_ok", "sync_ok"]
 
 
@@ -679,6 +682,16 @@ def expected_steps(n, C, pol, P, masked, g):
     return N
 
 
+def proper_weights(n, nA, P, av, masked, g):
+    """W = 1 + the largest expected (discounted) number of steps before absorption over ALL policies, by exact
+    policy iteration on the step-counting MDP; None when some policy never terminates (gamma = 1, not proper)"""
+    ones = [[[F(1) if P[s][a][k] > 0 else F(0) for k in range(n)] for a in range(nA)] for s in range(n)]
+    u = c01.exact_vstar(P, ones, av, masked, g)
+    if u is None or any(x < 0 for x in u):
+        return None
+    return [x + 1 for x in u]
+
+
 def search_failing(case, res):
     """the property's clauses, evaluated with exact rationals on the implementation's answer"""
     n, nA, P, R, av, absf, ini, g, masked = prep(case["mdp"])
@@ -844,6 +857,12 @@ def terms_for(case, res):
                     qmat(PiQ), q(res["initial_value"])])
     tl = "(mkLtols %s %s %s %s)" % (q(rho), q(ups), q(ups), q(F(1, 10**12)))
     t_chk = "chk %s %s %s %s %s" % (mt, lao, tl, qlist(Vs), qlist(N))
+    # undiscounted: the MDP-level properness certificate (theorems C03_*_proper); None = not proper for all policies
+    t_pchk = None
+    if g == 1:
+        Wt = proper_weights(n, nA, P, av, masked, g)
+        if Wt is not None:
+            t_pchk = "pchk %s %s %s %s %s" % (mt, lao, tl, qlist(Vs), qlist(Wt))
     # trace
     steps = []
     for st in res["trace"]:
@@ -877,6 +896,7 @@ def terms_for(case, res):
         prev = nodes
     t_anc = coqlist(anc_terms)
     info = {"nC": len(C), "nExplored": sum(ex), "n": n, "steps": len(steps),
+            "undiscounted": g == 1, "t_pchk": t_pchk,
             "pruned": sum(ex) < len(gen_mdp.reachable(case["mdp"])),
             "sol_eq_C": set(res["solution_states"]) == C}
     return t_chk, t_run, t_anc, info
@@ -948,6 +968,9 @@ def run(ctx):
             infos.append(info)
             terms += [t_chk, t_run, t_anc]
             meta += [("chk", i, k), ("run", i, k), ("anc", i, k)]
+            if info["t_pchk"]:
+                terms.append(info.pop("t_pchk"))
+                meta.append(("pchk", i, k))
             f = gen_mdp.features(cv["mdp"])
             f["absorbing_initial"] = any(cv["mdp"]["absorbing"][s] for s, p in cv["mdp"]["init"] if F(p) > 0)
             f["h_" + case["hkind"]] = True
@@ -991,7 +1014,7 @@ def run(ctx):
                 if isinstance(v, bool):
                     feats[kk] = feats.get(kk, 0) + int(v)
     vals = ctx.coq(PRE, terms, shard=12 if tier == "quick" else 36)
-    nchk = nrun = nanc = anc_drift = 0
+    nchk = nrun = nanc = anc_drift = npchk = 0
     anc_bad = []
     distinct = set()
     reported = set()
@@ -1008,7 +1031,7 @@ def run(ctx):
                 if (i, k) not in anc_bad:
                     anc_bad.append((i, k))
             continue
-        names = CLAUSES if kind == "chk" else RUN_CLAUSES
+        names = CLAUSES if kind == "chk" else PROPER_CLAUSES if kind == "pchk" else RUN_CLAUSES
         if not isinstance(v, list) or len(v) != len(names):
             ctx.violation("C03:coq-evaluation-failed", {"case": case, "plan_index": k, "kind": kind, "error": "unexpected value %r" % (v,)}, found=False)
             continue
@@ -1017,6 +1040,8 @@ def run(ctx):
             nchk += 1
             if len(res["nodes"]) > 1:
                 distinct.add(vlib.structural_hash([cv["mdp"], case["h"], case["seed"], case["rao"], case["rno"], k]))
+        elif kind == "pchk":
+            npchk += 1
         else:
             nrun += 1
         if failed and (i, k) not in reported:
@@ -1031,8 +1056,8 @@ def run(ctx):
                 ctx.violation("C03:" + tag + why["clause"], detail, found=True)
             else:
                 detail["correspondence"] = ("model/LAOStar.v:%s (theorems props/C03.v) rejects the implementation's %s"
-                                            % ("c03_check" if kind == "chk" else "c03_run_raw", "result" if kind == "chk" else "recorded run"))
-                ctx.violation("C03:%s%s-rejects:%s" % (tag, "certificate" if kind == "chk" else "run", "+".join(failed)), detail, found=False)
+                                            % ("c03_check" if kind == "chk" else "c03_proper_check" if kind == "pchk" else "c03_run_raw", "recorded run" if kind == "run" else "result"))
+                ctx.violation("C03:%s%s-rejects:%s" % (tag, {"chk": "certificate", "pchk": "proper-certificate", "run": "run"}[kind], "+".join(failed)), detail, found=False)
     # large family: judged in Python only (see INFO / coverage)
     nlarge_done, large_info = 0, []
     if th:
@@ -1070,7 +1095,7 @@ def run(ctx):
             r0 = impl[small[0]]["plans"][0]
             sample = {"case": c0, "impl": {key: r0.get(key) for key in ("converged", "initial_value", "value_map", "policy")}}
     ctx.coverage.update({
-        "evaluations": nchk + nrun + nanc + nlarge_done,
+        "evaluations": nchk + nrun + nanc + npchk + nlarge_done,
         "distinct_nontrivial": len(distinct),
         "rule": ("a case is ONE LAOStar object (heuristic, seed 0..3, randomize_action_order / randomize_nextstate_order on/off) and the list of MDPs it plans on in turn. "
                  "family random: MDPs from harness/gen_mdp.py (1..%d states, 1..3 actions, state-dependent action sets, k/8 probabilities, zero entries, duplicate rows, explicit/implicit absorbing states incl. absorbing initial states, multi-state initial distributions; gamma in {1/2,3/4,7/8,9/10,19/20}, or gamma = 1 proper) or gen_sparse (6..%d states, forward-moving, side chains); in 40%% of them the same object then plans on a perturbed MDP with the same labels (re-drawn probabilities/rewards) and possibly on the first one again. "
@@ -1081,6 +1106,8 @@ def run(ctx):
                  "heuristic in {constant upper bound, exact optimum rounded up to a double, optimum + per-state slack} (admissible for every MDP of the case); distinct = structural hash of (MDP, heuristic, seed, flags, position in the plan list); non-trivial = explicit graph with more than one node" % ((7, 13) if tier == "quick" else (10, 16))),
         "samples": [sample] if sample else [],
         "certificate_checks": nchk, "run_checks": nrun,
+        "undiscounted_plans": sum(1 for x in infos if x["undiscounted"]),
+        "undiscounted_plans_all_policies_proper_certified": npchk,
         "ancestor_mirror_evaluations": nanc, "ancestor_mirror_drift_cases": anc_drift,
         "main_loop_iterations_checked": sum(x["steps"] for x in infos),
         "plans": nplans, "plans_on_reused_planner_object": nreuse,
